@@ -107,7 +107,7 @@ def plan(rng, tier):
     elif r < 0.8:
         op = twin._modfunc(rng, g, dom, kind)
     elif r < 0.87:
-        op = ["ctor", g.keylist(1, 10), rng.choice(["list", "sorted",
+        op = ["ctork", g.keylist(1, 10), rng.choice(["list", "sorted",
                                                     "gen"])]
     elif r < 0.93:
         def st():
@@ -190,7 +190,7 @@ def _do(plan, dom, c, live, arm):
             return ops.norm_exc(e)
         finally:
             post()
-    if op[0] in ("mod", "ctor", "resolve"):
+    if op[0] in ("mod", "ctork", "resolve"):
         twin.PRECALL, twin.POSTCALL = arm, post
         try:
             return cmpfault._do(plan, dom, c, live)
@@ -263,7 +263,7 @@ def _one(plan, dom, cfg, ctx, n, nalloc, L0, L1, baseline, tracked, h, base):
             extra = set((dom.pkid(ops.K(dom, kk)), dom.pvid(ops.V(dom, vv)))
                         for kk, vv in op[1])
         verdict = cmpfault._contents_verdict(op, L0, L1, got, mapping, extra)
-        if opn in cmpfault.READONLY and opn != "ctor" and verdict != "old":
+        if opn in cmpfault.READONLY and opn != "ctork" and verdict != "old":
             verdict = None
     if verdict is None:
         raise Violation(
